@@ -653,6 +653,7 @@ class NFContext:
         self.laws_used = set()
         self.nonzero_dens = []
         self._pos_cache = {}
+        self.log_additive = False  # assume ln(xy) = ln x + ln y without proving positivity (recorded as an assumption)
 
     def positive(self, sym):
         if self.prover is None:
@@ -779,6 +780,10 @@ def to_rf(x, ctx: NFContext | None = None):
             ctx.laws_used.add("sqrt(t)^2 = t")
             return sqrt_rf(a, ctx)
         if f == "root":
+            if args[0].is_const() and args[1].is_const():
+                r = T.exact_root(args[0].const(), Q(1, int(args[1].const()))) if args[0].const() >= 0 else None
+                if r is not None:
+                    return rf_const(r)
             ctx.laws_used.add("root(t,q)^q = t")
         if f == "I":
             ctx.laws_used.add("I^2 = -1")
@@ -985,7 +990,11 @@ def ln_rf(a, ctx):
         pieces.append((p_gen(g), e))
     for f, e in a.den.values():
         pieces.append((f, -e))
-    ok = c > 0 and all(ctx.positive(poly_to_sym(f)) for f, _ in pieces)
+    if ctx.log_additive and c > 0:
+        ok = True
+        ctx.laws_used.add("ASSUMED: principal complex logarithm additive on the factors involved (no branch cut crossed)")
+    else:
+        ok = c > 0 and all(ctx.positive(poly_to_sym(f)) for f, _ in pieces)
     trivial = (c == 1 and len(pieces) == 1 and pieces[0][1] == 1)
     if not ok or trivial:
         return RF(p_gen(atom_gen("ln", (a,))))
